@@ -1,7 +1,7 @@
 (* C04 -- Any history of mutations leaves a consistent volume with expected content. Statements only.
    Stage T (table, byte level) and stage F (files, chain level) are theorems; directory and path operations
    are covered by the correspondence / oracle (history_refines is therefore PARTIAL, see DESIGN.md). *)
-From Coq Require Import List NArith ZArith Bool.
+From Coq Require Import List NArith ZArith Bool String.
 From NV Require Import Lib.Res Gen.Fat Fat.Spec.
 From NV Require Import FatTable.Model FatTable.ProofsBase FatTable.ProofsSet32 FatTable.Proofs.
 From NV Require Import FatAlloc.Model FatAlloc.ProofsBase FatAlloc.ProofsGrow FatAlloc.ProofsOps FatAlloc.ProofsWrite FatAlloc.ProofsFrame FatAlloc.Proofs.
@@ -36,7 +36,7 @@ Print Assumptions C04_set32_top_bits.
 
 (* stage F: truncate (shrink, grow, to zero) keeps the file well-formed, with frame: no other entry changes *)
 Theorem C04_truncate_wf :
-  forall bits cs limit : N, 0 < cs -> limit <= max_valid (PB bits) + 1 -> forall (newsize : N) (st st' : FatAlloc.Model.fstate), st_wf (PB bits) cs limit st -> truncate (PB bits) cs limit newsize st = Ok st' -> st_wf (PB bits) cs limit st' /\ size st' = newsize /\ pos st' = pos st /\ length (tbl st') = length (tbl st) /\ ((exists new : list N, new <> [] /\ map st' = map st ++ new /\ new = firstn (length new) (free_scan (PB bits) (tbl st) limit (hint_of (sfat st))) /\ extends (PB bits) limit (tbl st) (map st) (tbl st') (map st')) \/ (exists removed : list N, removed <> [] /\ map st = map st' ++ removed /\ map st' <> [] /\ (forall c : N, In c removed -> get (tbl st') c = 0) /\ (forall c : N, ~ In c (map st) -> get (tbl st') c = get (tbl st) c)) \/ map st' = map st /\ sfat st' = sfat st).
+  forall bits cs limit : N, 0 < cs -> limit <= max_valid (PB bits) + 1 -> forall (newsize : N) (st st' : FatAlloc.Model.fstate), st_wf (PB bits) cs limit st -> truncate (PB bits) cs limit newsize st = Ok st' -> st_wf (PB bits) cs limit st' /\ size st' = newsize /\ pos st' = pos st /\ Datatypes.length (tbl st') = Datatypes.length (tbl st) /\ ((exists new : list N, new <> [] /\ map st' = map st ++ new /\ new = firstn (Datatypes.length new) (free_scan (PB bits) (tbl st) limit (hint_of (sfat st))) /\ extends (PB bits) limit (tbl st) (map st) (tbl st') (map st')) \/ (exists removed : list N, removed <> [] /\ map st = map st' ++ removed /\ map st' <> [] /\ (forall c : N, In c removed -> get (tbl st') c = 0) /\ (forall c : N, ~ In c (map st) -> get (tbl st') c = get (tbl st) c)) \/ map st' = map st /\ sfat st' = sfat st).
 Proof. exact FatAlloc.Proofs.FA_truncate_wf. Qed.
 Print Assumptions C04_truncate_wf.
 
@@ -46,13 +46,13 @@ Proof. exact FatAlloc.Proofs.FA_write_wf. Qed.
 Print Assumptions C04_write_wf.
 
 Theorem C04_close_wf :
-  forall (bits cs limit : N) (st : FatAlloc.Model.fstate), st_wf (PB bits) cs limit st -> let st' := close_release true st in st_wf (PB bits) cs limit st' /\ length (tbl st') = length (tbl st) /\ (size st = 0 -> map st' = [] /\ size st' = 0 /\ (forall c : N, In c (map st) -> get (tbl st') c = 0) /\ (forall c : N, ~ In c (map st) -> get (tbl st') c = get (tbl st) c)) /\ (size st <> 0 -> st' = st).
+  forall (bits cs limit : N) (st : FatAlloc.Model.fstate), st_wf (PB bits) cs limit st -> let st' := close_release true st in st_wf (PB bits) cs limit st' /\ Datatypes.length (tbl st') = Datatypes.length (tbl st) /\ (size st = 0 -> map st' = [] /\ size st' = 0 /\ (forall c : N, In c (map st) -> get (tbl st') c = 0) /\ (forall c : N, ~ In c (map st) -> get (tbl st') c = get (tbl st) c)) /\ (size st <> 0 -> st' = st).
 Proof. exact FatAlloc.Proofs.FA_close_wf. Qed.
 Print Assumptions C04_close_wf.
 
 (* unlink frees exactly the chain (regression theorem for the chain-leak defect) *)
 Theorem C04_unlink_frees_all :
-  forall (bits limit : N) (f : fat) (m : list N), chain_wf (PB bits) limit (ftbl f) m -> let t' := ftbl (unlink_chain (PB bits) f (hd 0 m)) in length t' = length (ftbl f) /\ (forall c : N, In c m -> get t' c = 0) /\ (forall c : N, ~ In c m -> get t' c = get (ftbl f) c).
+  forall (bits limit : N) (f : fat) (m : list N), chain_wf (PB bits) limit (ftbl f) m -> let t' := ftbl (unlink_chain (PB bits) f (hd 0 m)) in Datatypes.length t' = Datatypes.length (ftbl f) /\ (forall c : N, In c m -> get t' c = 0) /\ (forall c : N, ~ In c m -> get t' c = get (ftbl f) c).
 Proof. exact FatAlloc.Proofs.FA_unlink_frees_all. Qed.
 Print Assumptions C04_unlink_frees_all.
 
@@ -86,19 +86,19 @@ Print Assumptions C04_holes_read_zero.
 
 (* frame: clusters outside the file s chain keep their bytes, foreign FAT entries are unchanged *)
 Theorem C04_other_clusters_untouched :
-  forall bits cs : N, 0 < cs -> forall (s : dstate) (o : op), ProofsTrunc.Inv (PB bits) cs s -> let s' := fst (step (PB bits) cs true s o) in length (dat s') = length (dat s) /\ length (tbl (fs s')) = length (tbl (fs s)) /\ (forall c : N, 2 <= c -> ~ In c (map (fs s')) -> getc (dat s') c = getc (dat s) c) /\ (forall c : N, ~ In c (map (fs s)) -> ~ In c (map (fs s')) -> get (tbl (fs s')) c = get (tbl (fs s)) c).
+  forall bits cs : N, 0 < cs -> forall (s : dstate) (o : op), ProofsTrunc.Inv (PB bits) cs s -> let s' := fst (step (PB bits) cs true s o) in Datatypes.length (dat s') = Datatypes.length (dat s) /\ Datatypes.length (tbl (fs s')) = Datatypes.length (tbl (fs s)) /\ (forall c : N, 2 <= c -> ~ In c (map (fs s')) -> getc (dat s') c = getc (dat s) c) /\ (forall c : N, ~ In c (map (fs s)) -> ~ In c (map (fs s')) -> get (tbl (fs s')) c = get (tbl (fs s)) c).
 Proof. exact FatData.Proofs.FD_other_clusters_untouched. Qed.
 Print Assumptions C04_other_clusters_untouched.
 
 (* stage E (directory entries): storing an existing name (any case variant or its alias) rewrites exactly that one record, keeping the stored name fields and attr2 *)
 Theorem C04_dir_update_in_place :
-  forall (upper : list N -> list N) (spc : N) (d : Model.dir) (name : list N) (entry : Model.rec) (g : Model.group) (x : list N * list N * Model.rec), ProofsClean.wf_recs (Model.d_recs d) -> ProofsView.cap_ok d -> ProofsOps.entry_ok entry -> Model.find upper (upper name) (upper name) (Model.groups (Model.d_recs d)) = Ok (Some (g, x)) -> let old := Model.g_short g in let new := Model.short_record entry (Model.fld de_filename old) (Model.fld de_ext old) (Model.byte_at de_attr2 old) in exists (G1 G2 : list Model.group) (A B : list Model.rec), FatDir.Model.setitem upper spc d name entry = ({| Model.d_recs := Model.set_nth (N.to_nat (Model.g_off g)) new (Model.d_recs d); Model.d_cap := Model.d_cap d |}, None) /\ Model.d_recs d = A ++ old :: B /\ Model.set_nth (N.to_nat (Model.g_off g)) new (Model.d_recs d) = A ++ new :: B /\ Model.g_off g = N.of_nat (length A) /\ Model.fld de_filename new = Model.fld de_filename old /\ Model.fld de_ext new = Model.fld de_ext old /\ Model.byte_at de_attr2 new = Model.byte_at de_attr2 old /\ Model.attr_of new = Model.attr_of entry /\ skipn 13 new = skipn 13 entry /\ length new = 32%nat /\ Model.groups (Model.d_recs d) = G1 ++ g :: G2 /\ Model.groups (A ++ new :: B) = G1 ++ (Model.g_off g, Model.g_lfns g, new) :: G2 /\ Model.split_g (Model.g_off g, Model.g_lfns g, new) = Ok (fst x, new) /\ ProofsView.view (A ++ new :: B) = List.map Model.split_g G1 ++ Ok (fst x, new) :: List.map Model.split_g G2.
+  forall (upper : list N -> list N) (spc : N) (d : Model.dir) (name : list N) (entry : Model.rec) (g : Model.group) (x : list N * list N * Model.rec), ProofsClean.wf_recs (Model.d_recs d) -> ProofsView.cap_ok d -> ProofsOps.entry_ok entry -> Model.find upper (upper name) (upper name) (Model.groups (Model.d_recs d)) = Ok (Some (g, x)) -> let old := Model.g_short g in let new := Model.short_record entry (Model.fld de_filename old) (Model.fld de_ext old) (Model.byte_at de_attr2 old) in exists (G1 G2 : list Model.group) (A B : list Model.rec), FatDir.Model.setitem upper spc d name entry = ({| Model.d_recs := Model.set_nth (N.to_nat (Model.g_off g)) new (Model.d_recs d); Model.d_cap := Model.d_cap d |}, None) /\ Model.d_recs d = A ++ old :: B /\ Model.set_nth (N.to_nat (Model.g_off g)) new (Model.d_recs d) = A ++ new :: B /\ Model.g_off g = N.of_nat (Datatypes.length A) /\ Model.fld de_filename new = Model.fld de_filename old /\ Model.fld de_ext new = Model.fld de_ext old /\ Model.byte_at de_attr2 new = Model.byte_at de_attr2 old /\ Model.attr_of new = Model.attr_of entry /\ skipn 13 new = skipn 13 entry /\ Datatypes.length new = 32%nat /\ Model.groups (Model.d_recs d) = G1 ++ g :: G2 /\ Model.groups (A ++ new :: B) = G1 ++ (Model.g_off g, Model.g_lfns g, new) :: G2 /\ Model.split_g (Model.g_off g, Model.g_lfns g, new) = Ok (fst x, new) /\ ProofsView.view (A ++ new :: B) = List.map Model.split_g G1 ++ Ok (fst x, new) :: List.map Model.split_g G2.
 Proof. exact FatDir.ProofsOps.setitem_existing_updates_in_place. Qed.
 Print Assumptions C04_dir_update_in_place.
 
 (* stage E: deleting removes exactly that group from the listing; every other group is byte-identical and every other key resolves as before *)
 Theorem C04_dir_delitem_spec :
-  forall (upper : list N -> list N) (spc : N) (d : Model.dir) (name : list N), ProofsClean.wf_recs (Model.d_recs d) -> ProofsView.cap_ok d -> match Model.find upper (upper name) (upper name) (Model.groups (Model.d_recs d)) with | Ok (Some (g, x)) => exists (d' : Model.dir) (G1 G2 : list Model.group) (pre seg post : list Model.rec), Model.delitem upper spc d name = (d', None) /\ Model.d_cap d' = Model.d_cap d /\ Model.groups (Model.d_recs d) = G1 ++ g :: G2 /\ Model.groups (Model.d_recs d') = G1 ++ G2 /\ Model.d_recs d = pre ++ seg ++ post /\ Model.d_recs d' = pre ++ (List.map Model.mark_lfn (Model.g_lfns g) ++ [Model.mark_short (Model.g_short g)]) ++ post /\ length seg = S (length (Model.g_lfns g)) /\ Model.g_off g + 1 = N.of_nat (length pre + length seg) /\ (forall k : list N, ProofsView.hit upper (upper k) (upper k) x = false -> Model.getitem upper d' k = Model.getitem upper d k) /\ (forall names : list (list N), Model.listing d = Ok names -> Model.listing d' = Ok (firstn (length G1) names ++ skipn (S (length G1)) names)) | Ok None => Model.delitem upper spc d name = (d, Some KeyError) | Err e => Model.delitem upper spc d name = (d, Some e) end.
+  forall (upper : list N -> list N) (spc : N) (d : Model.dir) (name : list N), ProofsClean.wf_recs (Model.d_recs d) -> ProofsView.cap_ok d -> match Model.find upper (upper name) (upper name) (Model.groups (Model.d_recs d)) with | Ok (Some (g, x)) => exists (d' : Model.dir) (G1 G2 : list Model.group) (pre seg post : list Model.rec), Model.delitem upper spc d name = (d', None) /\ Model.d_cap d' = Model.d_cap d /\ Model.groups (Model.d_recs d) = G1 ++ g :: G2 /\ Model.groups (Model.d_recs d') = G1 ++ G2 /\ Model.d_recs d = pre ++ seg ++ post /\ Model.d_recs d' = pre ++ (List.map Model.mark_lfn (Model.g_lfns g) ++ [Model.mark_short (Model.g_short g)]) ++ post /\ Datatypes.length seg = S (Datatypes.length (Model.g_lfns g)) /\ Model.g_off g + 1 = N.of_nat (Datatypes.length pre + Datatypes.length seg) /\ (forall k : list N, ProofsView.hit upper (upper k) (upper k) x = false -> Model.getitem upper d' k = Model.getitem upper d k) /\ (forall names : list (list N), Model.listing d = Ok names -> Model.listing d' = Ok (firstn (Datatypes.length G1) names ++ skipn (S (Datatypes.length G1)) names)) | Ok None => Model.delitem upper spc d name = (d, Some KeyError) | Err e => Model.delitem upper spc d name = (d, Some e) end.
 Proof. exact FatDir.ProofsOps.delitem_spec. Qed.
 Print Assumptions C04_dir_delitem_spec.
 
@@ -149,3 +149,23 @@ Theorem C04_source_facts :
   (fat32_min_valid, fat32_max_valid, fat32_end_mark) = (2, 268435439, 268435455).
 Proof. repeat split; reflexivity. Qed.
 Print Assumptions C04_source_facts.
+
+(* the path operations that FatVol/Model.v follows by hand (resolution, the creating branch of open, the five mutators):
+   canonical digests regenerated from path.py on every run -- any edit of their logic breaks this obligation (fail closed;
+   the correspondence then looks for a concrete input) *)
+Theorem C04_path_source_facts :
+  canon_FatPath_priv_resolve = "7c8f179242b07197"%string /\
+  canon_FatPath_priv_from_entry = "8db45540687235cb"%string /\
+  canon_FatPath_priv_refresh = "437ddfd4dccd5bcb"%string /\
+  canon_FatPath_open = "3a9fbde66da2925d"%string /\
+  canon_FatPath_unlink = "a4ee3c1b9f81d153"%string /\
+  canon_FatPath_rename = "2f61c57c08072ff0"%string /\
+  canon_FatPath_mkdir = "8b0eaad0a71795d8"%string /\
+  canon_FatPath_rmdir = "cd50a252695244d6"%string /\
+  canon_FatPath_touch = "1c2f44c844ebe6d8"%string /\
+  canon_FatPath_priv_must_be_named = "59d9a08179330008"%string /\
+  canon_FatPath_resolve = "596befdb77446bbc"%string /\
+  canon_get_parts = "fac8ba5c77581023"%string /\
+  fatpath_mutators_refuse_dot_names = true.
+Proof. repeat split; reflexivity. Qed.
+Print Assumptions C04_path_source_facts.
